@@ -33,8 +33,31 @@ func Keys[K comparable, V any](m map[K]V, site string) []K {
 	case reflect.Uint, reflect.Uint8, reflect.Uint16, reflect.Uint32, reflect.Uint64, reflect.Uintptr:
 		sort.Slice(keys, func(i, j int) bool { return reflect.ValueOf(keys[i]).Uint() < reflect.ValueOf(keys[j]).Uint() })
 	default:
-		vsync.Count("vmap-unowned:" + site)
-		return keys
+		// pointer / struct / interface keys: canonical order by a key derived from their scalar
+		// fields (names, numbers, nested two levels deep); keys that cannot be told apart that
+		// way stay in Go's order and are counted as not owned
+		ck := make([]string, n)
+		for i := range keys {
+			ck[i] = canonKey(reflect.ValueOf(keys[i]), 3)
+		}
+		idx := make([]int, n)
+		for i := range idx {
+			idx[i] = i
+		}
+		sort.SliceStable(idx, func(a, b int) bool { return ck[idx[a]] < ck[idx[b]] })
+		sorted := make([]K, n)
+		ties := false
+		for i, j := range idx {
+			sorted[i] = keys[j]
+			if i > 0 && ck[j] == ck[idx[i-1]] {
+				ties = true
+			}
+		}
+		keys = sorted
+		if ties {
+			vsync.Count("vmap-unowned:" + site)
+			return keys
+		}
 	}
 	if !vsync.Active() {
 		return keys
@@ -84,4 +107,42 @@ func permutations(n int) [][]int {
 	}
 	rec(nil, make([]bool, n))
 	return out
+}
+
+// canonKey renders the scalar content of v (strings, numbers, bools; through pointers,
+// interfaces and struct fields, depth levels deep) as a sortable string. Addresses never enter.
+func canonKey(v reflect.Value, depth int) string {
+	if !v.IsValid() {
+		return "~"
+	}
+	switch v.Kind() {
+	case reflect.String:
+		return "s" + v.String()
+	case reflect.Bool:
+		if v.Bool() {
+			return "b1"
+		}
+		return "b0"
+	case reflect.Int, reflect.Int8, reflect.Int16, reflect.Int32, reflect.Int64:
+		return fmt.Sprintf("i%020d", v.Int()+(1<<62))
+	case reflect.Uint, reflect.Uint8, reflect.Uint16, reflect.Uint32, reflect.Uint64:
+		return fmt.Sprintf("u%020d", v.Uint())
+	case reflect.Float32, reflect.Float64:
+		return fmt.Sprintf("f%v", v.Float())
+	case reflect.Ptr, reflect.Interface:
+		if v.IsNil() || depth == 0 {
+			return "~"
+		}
+		return canonKey(v.Elem(), depth-1)
+	case reflect.Struct:
+		if depth == 0 {
+			return "~"
+		}
+		out := "{"
+		for i := 0; i < v.NumField(); i++ {
+			out += canonKey(v.Field(i), depth-1) + ","
+		}
+		return out + "}"
+	}
+	return "~"
 }
